@@ -154,9 +154,25 @@ theorem nullary_without_brackets (bs : Bool) (s : Str) (fn : Function) (t : Lexe
   unfold parseFunction
   cases t <;> simp_all [fnHeader, Expr.setMinus]
 
+/-- the same for a boolean function (`has_caps`, `is_...`-style tests): written without brackets it is the call without
+    arguments and the token after it is left for whatever follows (D84 fix: it used to be swallowed) -/
+theorem boolean_without_brackets (bs : Bool) (s : Str) (fn : Function) (t : Lexem) (r : List Lexem)
+    (hf : Field.ofStr? s = none) (hfn : Function.ofStr? s = some fn)
+    (hb : fn.isBoolean = true) (ht : t ≠ .open_ ∧ t ≠ .copen) :
+    (parseParen bs (.raw s :: t :: r)).res = .ok (.func0 false fn) ∧ (parseParen bs (.raw s :: t :: r)).rest = t :: r := by
+  unfold parseParen
+  have h1 : ∀ r', (Lexem.raw s :: t :: r) ≠ .open_ :: r' := by intro r' h; cases h
+  unfold parseFuncScalar leafP
+  simp only [hf, hfn]
+  unfold parseFunction
+  cases t <;> simp_all [fnHeader, Expr.setMinus]
+
+example : Field.ofStr? (ofS "has_caps") = none ∧ Function.ofStr? (ofS "has_caps") = some .HasCapabilities ∧
+    Function.isBoolean .HasCapabilities = true := by decide
+
 /-- **a column name keeps meaning the column when an arithmetic sign follows it without a blank, in any letter
     case**: the lexer's `looks_like_expression` test on the pending token gives the same answer for `SIZE*2`,
-    `Size+1` and `size*2` — every maximal alphanumeric run is looked up case-insensitively (column, function) or
+    `Size+1` and `size*2` — every maximal run of name characters (letters, digits, `_`) is looked up case-insensitively (column, function) or
     read as an integer, which has no letter case -/
 theorem expression_test_case_insensitive (s t : Str) (h : lowerStr s = lowerStr t) :
     looksLikeExpression s = looksLikeExpression t := by
